@@ -251,8 +251,12 @@ func genStopPoints(rng *rand.Rand, seed int64) *Scenario {
 // hands during the outage (outside writer), a partition, or a stop.
 func genConn(rng *rand.Rand, seed int64) *Scenario {
 	h := []time.Duration{500 * ms, 1000 * ms, 2000 * ms}[rng.Intn(3)]
+	if rng.Intn(5) == 0 {
+		// (a record that lives for less than the verification's settle time of 100 ms: the verification has its own budget)
+		h = []time.Duration{20 * ms, 30 * ms}[rng.Intn(2)]
+	}
 	grace := time.Duration(0)
-	if rng.Intn(2) == 0 {
+	if rng.Intn(2) == 0 || h < 100*ms {
 		grace = 2*h + time.Duration(rng.Int63n(int64(3*h)))
 	}
 	g := grace
@@ -262,8 +266,8 @@ func genConn(rng *rand.Rand, seed int64) *Scenario {
 			g = 5 * time.Second
 		}
 	}
-	sc := &Scenario{Name: "conn", Seed: seed, StoreTTL: 3 * h, Lat: map[int]LatSpec{0: {Min: 1 * ms, Max: h / 8}},
-		WatchMin: 1 * ms, WatchMax: h / 8, Sample: h / 2, NoPreempt: true, ConnOnly: true, MaxLat: h / 8}
+	sc := &Scenario{Name: "conn", Seed: seed, StoreTTL: 3 * h, Lat: map[int]LatSpec{0: {Min: h / 500, Max: h / 8}},
+		WatchMin: h / 500, WatchMax: h / 8, Sample: h / 2, NoPreempt: true, ConnOnly: true, MaxLat: h / 8}
 	n := 1 + rng.Intn(2)
 	for i := 1; i <= n; i++ {
 		is := baseInst(i, h)
@@ -459,6 +463,15 @@ func genHealth(rng *rand.Rand, seed int64) *Scenario {
 	if rng.Intn(3) == 0 {
 		is.Promote = "block"
 	}
+	if !small && rng.Intn(5) == 0 {
+		// a store that takes two to three intervals over every answer (less than the refresh's own time-out): ticks are
+		// skipped, the checker is asked less often than once per interval - and only what it says counts, not the clock
+		sc.Lat[0] = LatSpec{Min: 2 * h, Max: 3*h - 50*ms}
+		sc.Responsive = false
+		sc.MaxLat = 0
+		sc.StoreTTL = 12 * h
+		is.TTL = 12 * h
+	}
 	slowDemote := []time.Duration{0, 0, 300 * ms, 1200 * ms}[rng.Intn(4)]
 	if rng.Intn(3) == 0 {
 		// isolated transient failures of the refresh itself on some ticks (the leader's k-th store operation is its k-th
@@ -514,6 +527,9 @@ var tamperValues = []string{
 	`{"id":"i1","token":"$TOK1"}xyz`, `{"id":"i1","token":"$TOK1"}{"id":"i2","token":"t"}`, `{"id":"i1","token":"$TOK1"} {"id":"i1"`,
 	`{"id":"i1","token":"$TOK1"},`, `[{"id":"i1","token":"$TOK1"}]`, ` {"id":"i1","token":"$TOK1"} `, `{"id":"i1","token":"$TOK1"}` + "\x00",
 	`{"id":"i1","token":"$TOK1","priority":1e400}`, `{"id":"i1","token":"$TOK1","priority":1.5}`,
+	// the leader's id with its token spelt differently: a different token
+	`{"id":"i1","token":"$UPTOK1"}`, `{"id":"i1","token":"$BRTOK1"}`, `{"id":"i1","token":"$URNTOK1"}`, `{"id":"i1","token":"$RAWTOK1"}`,
+	`{"id":"i1","token":"$UPTOK1"}`, `{"id":"i1","token":"$RAWTOK1"}`,
 }
 
 // genTamper: an outside party rewrites or deletes the record at arbitrary moments with arbitrary
